@@ -33,6 +33,7 @@ SHARDS = {"quick": 8, "thorough": 16}
 MIN_REACH = {
     "histories_under_xarrays_new_combine_defaults": {"quick": 20, "thorough": 300},
     "histories_whose_file_is_named_by_a_path_object": {"quick": 15, "thorough": 250},
+    "histories_whose_files_keep_one_time_stamp": {"quick": 20, "thorough": 350},
     "states_judged": {"quick": 500, "thorough": 9000},
     "conflicts_refused": {"quick": 25, "thorough": 500},
     "new_sessions": {"quick": 80, "thorough": 1500},
@@ -215,6 +216,8 @@ def run_case(ctx, case):
 def _run_case(ctx, case):
     import xyzpy
     import xarray as xr
+    if (len(case["steps"]) * 7 + len(case["name"])) % 2 == 1:
+        ctx.count("histories_whose_files_keep_one_time_stamp")
     kind = case["kind"]
     engine = case["engine"]
     tmp = ctx.mkdtemp("hv")
@@ -316,8 +319,17 @@ def _run_case(ctx, case):
                     state["a_float"] = True
         return len(confl)
 
+    freeze_times = (len(case["steps"]) * 7 + len(case["name"])) % 2 == 1
+
     def judge(step_desc, synced):
         nonlocal nviol
+        if freeze_times:
+            # a file system whose time stamps do not advance between two writes of this history (coarse resolution, files
+            # put in place with preserved times): every file of the harvester keeps ONE modification time throughout
+            for f_ in os.listdir(tmp):
+                p_ = os.path.join(tmp, f_)
+                if os.path.isfile(p_):
+                    os.utime(p_, (1.7e9, 1.7e9))
         want = model_ds()
         bad = []
         if want is None and data_name is None:
